@@ -81,7 +81,9 @@ fn feedback_families_x(th: bool, last_pos: &[Op], oracles: Vec<Oracle>, full: bo
   let needs_reference = oracles.iter().any(|o| matches!(o, Oracle::Functional | Oracle::Teardown | Oracle::Independence));
   let restricted = needs_reference && !full;
   let trigs: Vec<Trig> = if restricted { vec![Trig::Item(1), Trig::Item(2)] } else { vec![Trig::Item(1), Trig::Item(2), Trig::Complete, Trig::Error] };
-  let fed: Vec<Ev> = if restricted { vec![Ev::n(9)] } else { vec![Ev::n(9), Ev::E(6), Ev::C] };
+  // (fed items: a fresh value, and the two values the scripts are made of - an operator that compares
+  // with, counts or tests what it has seen meets a fed item that looks like the one in flight)
+  let fed: Vec<Ev> = if restricted { vec![Ev::n(9)] } else if full { vec![Ev::n(9), Ev::n(1), Ev::n(2), Ev::E(6), Ev::C] } else { vec![Ev::n(9), Ev::E(6), Ev::C] };
   let mut w1 = vec![];
   for sc in wf_scripts(&[1, 2], 2, &[Ending::Complete, Ending::Error, Ending::Silent]) {
     for trig in trigs.iter().cloned() {
